@@ -1100,6 +1100,9 @@ class Translator:
         fn = self.find(rel, qual)
         if spec.get("mode") == "h5dump":
             return self.translate_h5dump(name, spec, fn)
+        if spec.get("mode") == "smcloop":
+            from . import loop2lean
+            return loop2lean.translate(self, name, spec, fn)
         env: dict = {}
         params: list = []          # (lean name, kind, origin)
         # objects (`self`, `samples`): their fields become parameters
